@@ -128,6 +128,9 @@ func (sc *c14Scenario) Nontrivial(res *simrt.Result) bool {
 func (sc *c14Scenario) Run(s *simrt.Sim) {
 	h := &Hist{S: s}
 	sc.h = h
+	// the library's default instances (default Handler/Actor and whatever else the package creates when it is loaded) are
+	// re-created inside every simulation: code that falls back on them runs on simulated threads (see C12, C16)
+	fpgo.SimReinit()
 	total := 0
 	for _, c := range sc.Callers {
 		for _, st := range c.Steps {
@@ -211,8 +214,12 @@ func (sc *c14Scenario) Run(s *simrt.Sim) {
 		}
 	}
 	var hd *fpgo.HandlerDef
+	hdTID := 0
 	if sc.IOHandler {
 		hd = fpgo.Handler.New()
+		got := false
+		hd.Post(func() { hdTID = s.Self().ID; got = true })
+		s.WaitUntilTimeout(func() bool { return got }, time.Minute)
 	}
 	var closedHd *fpgo.HandlerDef
 	if sc.IOPreSub == "closed" {
@@ -245,6 +252,11 @@ func (sc *c14Scenario) Run(s *simrt.Sim) {
 					}
 				} else {
 					io := fpgo.MonadIOJustGenerics[int](x)
+					effTID := -1
+					if (ci+si)%3 == 0 && hd != nil {
+						// an IO with an effect of its own: with ObserveOn(hd) it runs on hd's goroutine, whoever yields from it
+						io = fpgo.MonadIONewGenerics(func() int { effTID = s.Self().ID; return x })
+					}
 					if (ci+si)%3 != 0 {
 						// the IO is one of two compositions derived from a common origin chain; the other one, derived
 						// later, computes something else
@@ -266,6 +278,9 @@ func (sc *c14Scenario) Run(s *simrt.Sim) {
 					}
 					// (an IO whose effect panics, recovered by the caller, before this call was tried and withdrawn: DESIGN.md §9, 17)
 					op := h.Do(name, "YieldFromIO", x, func() (interface{}, error) { return self.YieldFromIO(io), nil })
+					if op.Panic == "" && effTID >= 0 && hdTID != 0 && effTID != hdTID {
+						sc.extra = append(sc.extra, Violation{Clause: "yield-from-io", Fingerprint: "effect-not-on-the-observe-handler", Detail: fmt.Sprintf("%s: the IO carries ObserveOn(h) (pre-set SubscribeOn: %q); its effect ran on T%d, h is T%d", op.String(), sc.IOPreSub, effTID, hdTID)})
+					}
 					if op.Panic == "" && op.Val != x {
 						sc.extra = append(sc.extra, Violation{Clause: "yield-from-io", Fingerprint: "wrong-value", Detail: op.String() + ": want the IO's value"})
 					}
@@ -422,6 +437,19 @@ func (sc *c14Scenario) Run(s *simrt.Sim) {
 			sc.extra = append(sc.extra, Violation{Clause: "hang", Fingerprint: "do-block-used-as-a-generator", Detail: fmt.Sprintf("a do-block whose coroutine serves two requests did not finish (answers %d, %d; result %d)", r1, r2, res)})
 		} else if r1 != 10 || r2 != 20 || res != 102 {
 			sc.extra = append(sc.extra, Violation{Clause: "do-notation", Fingerprint: "do-block-used-as-a-generator", Detail: fmt.Sprintf("a do-block yields 10 and 20 to a caller sending 1 and 2 and returns 100*a+b: the caller got %d, %d (want 10, 20), DoNotation returned %d (want 102)", r1, r2, res)})
+		}
+	}
+	// the library's default Handler is a Handler like any other: an IO observed on it may run a do-block that yields from
+	// a plain IO (nothing of that needs the default Handler a second time)
+	{
+		res, gotRes := -1, false
+		dio := fpgo.MonadIONewGenerics(func() int {
+			var z fpgo.CorDef[int]
+			return z.DoNotation(func(self *fpgo.CorDef[int]) int { return self.YieldFromIO(fpgo.MonadIOJustGenerics(7)) + 1 })
+		}).ObserveOn(fpgo.Handler.GetDefault())
+		dio.Subscribe(fpgo.Subscription[int]{OnNext: func(v int) { res = v; gotRes = true }})
+		if !s.WaitUntilTimeout(func() bool { return gotRes }, 10*time.Minute) || res != 8 {
+			sc.extra = append(sc.extra, Violation{Clause: "yield-from-io", Fingerprint: "do-block-on-the-default-handler", Detail: fmt.Sprintf("an IO observed on the default Handler whose effect runs DoNotation + YieldFromIO(Just(7)) + 1: delivered=%v value=%d (want 8)", gotRes, res)})
 		}
 	}
 	// YieldFromIO returns the IO's value whatever the state of the coroutine object it is called on: here the
